@@ -72,6 +72,19 @@ def family(name, ctx, prefix=""):
     return None
 
 
+def unusable_pattern(name):
+    """names the wildcard matcher rejects as a pattern: `**` that is not a whole path component, three stars in a row, a `[`
+    with no `]` after it"""
+    if "***" in name or ("**" in name and name != "**"):
+        return True
+    i = name.find("[")
+    while i >= 0:
+        if "]" not in name[i + 1:]:
+            return True
+        i = name.find("[", i + 1)
+    return False
+
+
 def type_prefix(prefix, ctx):
     """how a user types this prefix in this context (None: cannot be typed that way)"""
     if ctx == "unq":
@@ -190,6 +203,10 @@ def judge(case):
         if cd:
             want = ["cd"] + want
         fam = family((sub + "/" if sub else "") + name, ctx, prefix)
+        if fam == "unquoted:escaped-star-is-globbed" and unusable_pattern(name) and not (sub and any(c in sub for c in "*?[")):
+            # the wildcard pass cannot take this name for a pattern at all and leaves such a word alone: whatever changed
+            # the argument, it is not that finding
+            fam = None
         if rec is None:
             # nothing ran: continuation prompt, background, syntax error ...
             sym = "program-did-not-run"
